@@ -141,11 +141,12 @@ CLAIMED = {
                 "start_query() and make_query() re-establish the initial state (flag clear, ids restart), and next_id/set_var_id/clear_id/stop_query satisfy their counter/flag contracts. "
                 "This turns the history property into a per-constructor contract, as the statement's proviso allows. make_query is verified modularly with Unifiable::recreate_variables stubbed; "
                 "the stub's frame assumption (renaming never writes the stop flag) is re-checked by a source scan on every run. start_query_timer (what solve / solve_all begin with) clears the flag before arming the timer (ThreadTimer stubbed). "
-                "parse_query, the string-driven constructor, is proved in Verus on its verbatim body to return only queries obtained from make_query (provenance clause #query_from_constructor).",
+                "parse_query, the string-driven constructor, is proved in Verus on its verbatim body to return only queries obtained from make_query (provenance clause #query_from_constructor). "
+                "solve and solve_all are proved in Verus (unit solutions, ghost counter) to start the search only after start_query_timer() and to cancel the timer they armed on every path out, so that no timer of one call can stop a later query.",
         'note': 'Assumed, not checked: the engine reads no other cross-query state and reads these two only through count_rules / next_id; the timer thread itself is stubbed. Trusted: Kani 0.68 / CBMC 6.11, stubs for fmt::format, RandomState::new, ThreadTimer; Verus trusted base of unit parsers (T1-T5).',
         'technique': 'Kani function-level harnesses (complete BMC, callee stubbed) on the real crate + contract-based deductive verification (Verus) of parse_query',
         'engine': 'kani-harnesses',
-        'design_ref': 'DESIGN.md 5/C22',
+        'design_ref': 'DESIGN.md 5/C22, 8.18',
     },
     'C15': {
         'text': 'Deductive proof (Verus) on the verbatim bodies of make_linked_list and link_front: for every term vector satisfying the call-site precondition the result is a well-formed list '
